@@ -16,7 +16,7 @@ RULE = ('seeded generator: complex pupil fields 2..20 per side, integers N_r, N_
 ASSUMPTIONS = ['1/alpha is an integer number of samples on each axis (commensurate sampling), as the property states']
 PLAN = {'quick': {'gen': 8}, 'thorough': {'gen': 16, 'tests': 1, 'docs': 1}}
 REQUIRED_BUCKETS = ['N:rect', 'N:square', 'dx:aniso', 'dx:iso', 'os=1', 'os=2', 'os=3', 'N:odd', 'N:even', 'fft', 'dft',
-                    'nested', 'normalize_power', 'normalize_power:small-int', 'normalize_power:narrow-float', 'amp:extreme-magnitude', 'fft:any-period', 'fft:period%os!=0', 'amp:signed']
+                    'nested', 'normalize_power', 'normalize_power:small-int', 'normalize_power:narrow-float', 'amp:extreme-magnitude', 'fft:any-period', 'fft:period%os!=0', 'amp:signed', 'nested:mask-values']
 REQUIRED_ANCHORS = ['probe:propagate_dft', 'probe:propagate_fft', 'anchor:_fft2', 'anchor:normalize_power',
                     'anchor:dft2']
 REQUIRED_ORACLES = ['dft:full-period', 'fft:full-period', 'nested:monotone', 'intensity>=0', 'normalize_power',
@@ -225,6 +225,11 @@ def workload(ctx, lentil):
                     mk = np.zeros((Nr * os_, Nc * os_))
                     r0, c0 = (Nr * os_) // 2 - (kr * os_) // 2, (Nc * os_) // 2 - (kc * os_) // 2
                     mk[r0:r0 + kr * os_, c0:c0 + kc * os_] = 1
+                    if k % 3 == 1:
+                        # the window mask as it comes out of other tools: boolean, 8-bit 0/255, a sum of overlapping windows (2 in
+                        # the overlap) - every open sample belongs to the window, none of them amplifies the light
+                        mk = [mk.astype(bool), (mk * 255).astype(np.uint8), mk + (np.indices(mk.shape)[0] >= r0 + (kr * os_) // 2) * mk][(k // 3) % 3]
+                        ctx.bucket('nested:mask-values')
                     out = lentil.propagate_dft(w, du, shape=(Nr, Nc), oversample=os_, mask=mk)
                     with probe.quiet():
                         I = out.intensity
